@@ -298,6 +298,73 @@ static int run_dispatch(const char *in_path, const char *out_path)
 }
 
 // ---------------------------------------------------------------------------------------------
+// hier: overloads on concrete TS[<named scalar bundle>] parameters over a generated INHERITANCE hierarchy (several parents per
+// bundle): "most specific" is the candidate whose base is the fewest parent edges away from the argument's bundle.
+//   input line:  <name>:<parent>,<parent>;<name>:...   |  <candidate base>,<candidate base>,...  |  <argument bundle>
+//                (bundles listed parents first; one candidate per listed base, registered in that order)
+//   output line: R <n> ok <base> | err resolution <text> | err other <text>
+// ---------------------------------------------------------------------------------------------
+static int run_hier(const char *in_path, const char *out_path)
+{
+    std::ifstream in(in_path);
+    FILE *out = std::fopen(out_path, "w");
+    if (!in || !out) return 64;
+    auto &reg = TypeRegistry::instance();
+    (void)reg.register_scalar<Int>("int");
+    const std::vector<std::pair<std::string, const ValueTypeMetaData *>> fields{{"id", reg.value_type("int")}};
+    std::string line;
+    long n = 0;
+    while (std::getline(in, line))
+    {
+        ++n;
+        std::string buf = "R " + std::to_string(n) + " ";
+        try
+        {
+            auto secs = split_top(line, '|');
+            if (secs.size() != 3) throw std::runtime_error("bad hier line");
+            for (auto &x : secs) x.erase(std::remove(x.begin(), x.end(), ' '), x.end());
+            const std::string ns = "v19h." + std::to_string(n);
+            std::map<std::string, const ValueTypeMetaData *> types;
+            for (const auto &d : split_top(secs[0], ';'))
+            {
+                if (d.empty()) continue;
+                const auto colon = d.find(':');
+                const std::string name = d.substr(0, colon);
+                std::vector<const ValueTypeMetaData *> parents;
+                for (const auto &pn : split_top(d.substr(colon + 1), ','))
+                    if (!pn.empty()) parents.push_back(types.at(pn));
+                types[name] = reg.bundle(ns.c_str(), name.c_str(), fields, parents);
+            }
+            OperatorRegistry::instance().reset();
+            for (const auto &c : split_top(secs[1], ','))
+            {
+                if (c.empty()) continue;
+                OperatorImpl impl;
+                impl.name  = "vop";
+                impl.label = c;
+                impl.params.push_back(ParamPattern{.kind = ParamPattern::Kind::Input, .name = "value", .ts = TypePattern::concrete(reg.ts(types.at(c)))});
+                impl.rank = operator_dispatch_detail::operator_rank(impl.params);
+                impl.wire = [](Wiring &, const ResolutionMap &, std::span<const WiringArg>,
+                               std::span<const std::pair<std::string, WiringPortRef>>) -> OperatorWireResult { return {}; };
+                OperatorRegistry::instance().register_overload(std::move(impl));
+            }
+            WiringArg arg;
+            arg.kind        = WiringArg::Kind::TimeSeries;
+            arg.port.schema = reg.ts(types.at(secs[2]));
+            std::array<WiringArg, 1> args{arg};
+            ResolvedOperatorCall r = OperatorRegistry::instance().resolve("vop", std::span<const WiringArg>{args}, false);
+            buf += "ok " + (r.impl != nullptr ? r.impl->label : std::string("<null>"));
+        }
+        catch (const OperatorResolutionError &e) { buf += std::string("err resolution ") + clean(e.what()); }
+        catch (const std::exception &e) { buf += std::string("err other ") + clean(e.what()); }
+        buf += "\n";
+        std::fwrite(buf.data(), 1, buf.size(), out);
+    }
+    std::fclose(out);
+    return 0;
+}
+
+// ---------------------------------------------------------------------------------------------
 // native: a scheduler-using node on the GENERIC evaluate path (NodeBuilder::native - the path Python-authored nodes take: the
 // runtime, not the node, applies the validity gate), fed by two scripted native sources.
 //   input line:  a=<t:v,...> b=<t:v,...> active=a|ab ops=<S|n>:<tok>,<tok>;... end=<T>
@@ -455,6 +522,7 @@ int main(int argc, char **argv)
 {
     if (argc >= 4 && std::string(argv[1]) == "native") return run_native(argv[2], argv[3]);
     if (argc >= 4 && std::string(argv[1]) == "dispatch") return run_dispatch(argv[2], argv[3]);
+    if (argc >= 4 && std::string(argv[1]) == "hier") return run_hier(argv[2], argv[3]);
     if (argc >= 4 && std::string(argv[1]) == "sched") return run_sched(argv[2], argv[3]);
     std::fprintf(stderr, "usage: hgunit sched <in> <out>\n");
     return 64;
